@@ -195,6 +195,7 @@ CallChecks(e) ==
     [] e.op = "same_as"    -> << <<"call.same_result", e.res = Log[tid][e.ref].res>> >>   \* e.g. explicit default = omitted
     [] e.op = "reexport"   -> << <<"reexport.no_import_errors", e.nerr = 0>>,            \* export . import . export = export
                                  <<"reexport.fixed_point", e.res = ResOf(e.ref)>> >>
+    [] e.op = "raised"     -> << <<e.was \o ".raised_unexpectedly", FALSE>> >>          \* a query that has no reason to raise did
     [] e.op = "relation"   -> RelationChecks(e)
     [] e.op = "arrangement" -> ArrangementChecks(e)
     [] e.op = "listing"    -> << <<"listing", e.res = PairsOf(Filtered(e.args.incall, SetOf(e.args.inc)))>> >>
